@@ -389,7 +389,14 @@ type queryVariant struct {
 
 // solve races the installed solvers on the query variants; the first
 // definitive answer wins (sat only from variants whose sat is meaningful).
+// solveWith: like solve, restricted to the named solvers (nil: all).
+var solverSubset []string
+
 func solve(dir, name string, variants []queryVariant, timeoutS int) solveResult {
+	return solveOn(dir, name, variants, timeoutS, nil)
+}
+
+func solveOn(dir, name string, variants []queryVariant, timeoutS int, only []string) solveResult {
 	os.MkdirAll(dir, 0o755)
 	base := filepath.Join(dir, sanitize(name))
 	ctx, cancel := context.WithCancel(context.Background())
@@ -399,11 +406,22 @@ func solve(dir, name string, variants []queryVariant, timeoutS int) solveResult 
 		ms                  int64
 		definitive          bool
 	}
-	njobs := len(solvers) * len(variants)
+	use := solvers
+	if len(only) > 0 {
+		use = nil
+		for _, s := range solvers {
+			for _, o := range only {
+				if s.name == o {
+					use = append(use, s)
+				}
+			}
+		}
+	}
+	njobs := len(use) * len(variants)
 	ch := make(chan one, njobs)
 	var wg sync.WaitGroup
 	for _, v := range variants {
-		for _, s := range solvers {
+		for _, s := range use {
 			s, v := s, v
 			tag := s.name
 			if v.tag != "" {
